@@ -562,6 +562,15 @@ func main() {
 		}
 		return fails[i].Index < fails[j].Index
 	})
+	if dump := os.Getenv("VERIF_DUMP"); dump != "" {
+		if f, err := os.Create(dump); err == nil {
+			for _, fl := range fails {
+				b, _ := json.Marshal(fl)
+				f.Write(append(b, '\n'))
+			}
+			f.Close()
+		}
+	}
 	knownSeen := map[string]int{}
 	type group struct {
 		key     string
@@ -731,6 +740,9 @@ func validatePlain(plainBin, id, tier string, stride int, obs map[int]string, wo
 			}
 			if strings.Contains(want, "HOST-PANIC") || strings.Contains(want, "HANG") || strings.Contains(want, "DEADLOCK") {
 				validated++
+				continue
+			}
+			if strings.Contains(want, "volatile") {
 				continue
 			}
 			fails = append(fails, fail{Class: "CONFORMANCE:plain build died", Index: g, Scenario: "conformance", Detail: fmt.Sprintf("instrumented observation %s; plain build: %s", want, cls)})
